@@ -103,6 +103,30 @@ CHECKS['C09'] = dict(
          'virtual times; what call() received and when is logged and every trace is validated by TLC with times compared exactly.',
     design_ref='DESIGN.md section 6 C09', note=TB + '; exact virtual time (no tolerance windows)')
 
+CHECKS['C02'] = dict(
+    technique='TLA+ specs ServletNet (uid minting, ledger, worker loops with short-circuit and batch split, ensemble catalog with '
+              'fail_fast, switch; values carry provenance) and ServerCore (ledger) checked by TLC; as-found id re-use and '
+              'put-before-record must produce cross-talk / a lost response in the model; TLC trace validation of the real Server '
+              'over thread servlet trees under a deterministic scheduler',
+    text='TLC explores all interleavings of callers, workers, ensemble/switch threads and the gather thread for four topologies '
+         '(2 workers; sequential with a batched second stage; 2-member ensemble with fail_fast on/off; switch), every subset of '
+         'failing requests per stage and every routing, checking NoCrossTalk (each delivered value was computed from that '
+         'request\'s own input by the configured composition), NoMiss and (FairSpec) AllAnswered.  The real Server runs those '
+         'topologies under detsched with every queue get/put of the tree logged; delivered values are decoded into provenance '
+         'records and each trace is validated by TLC; re-use of a request id is accepted only when nothing in the tree still carries it.',
+    design_ref='DESIGN.md section 6 C02', note=SRV.replace('a ThreadServlet of harness workers (the abstract pipeline of the spec)', 'thread servlet trees of harness workers'))
+CHECKS['C04'] = dict(
+    technique='TLA+ spec ServletNet with failure sets per stage: TLC checks that every outcome is the request\'s own success or own '
+              'failure (site, batch membership, ensemble fail_fast rules); TLC trace validation of failure-injection runs of the '
+              'real Server over thread servlet trees, with exception type/args/traceback checked at every delivered failure',
+    text='In the model a failing call fails exactly the members of its batch, an exception value is short-circuited through later '
+         'stages, and the ensemble produces EnsembleError exactly under the documented rules; NoCrossTalk compares every outcome '
+         'with ExpectedOK for all subsets of failing requests; reachability goals (batch of two, late member result after fail-fast) '
+         'guard against vacuity.  In the conformance leg harness workers raise ElemError(request, site); batch compositions are '
+         'logged, every delivered failure is decoded (class, args, failure-site traceback: live frames for thread servlets, text '
+         'after a process boundary) and the trace is validated by TLC.',
+    design_ref='DESIGN.md section 6 C04', note=SRV.replace('a ThreadServlet of harness workers (the abstract pipeline of the spec)', 'thread servlet trees of harness workers'))
+
 ALL = ['C%02d' % i for i in range(1, 21)]
 
 
